@@ -20,10 +20,9 @@ import (
 
 var errNoPath = errors.New("failed to dial QUIC connection: no path")
 
-func dialQUIC(log *slog.Logger, localAddr, remoteAddr udp.UDPAddr, daemonAddr string, config *tls.Config) (*scion.QUICConnection, Data, error) {
+func dialQUIC(ctx context.Context, log *slog.Logger, localAddr, remoteAddr udp.UDPAddr, daemonAddr string, config *tls.Config) (*scion.QUICConnection, Data, error) {
 	config.NextProtos = []string{alpn}
 	var err error
-	ctx := context.Background()
 
 	dc := scion.NewDaemonConnector(ctx, daemonAddr)
 
